@@ -763,4 +763,30 @@ theorem initWorld_separated (cx : Ctx) (kind : String) (strand : Int) (rows : Li
       · subst e; exact separated_single _ (.lin _) rfl (hv _)
       · subst e; exact separated_single _ (.lin _) rfl (hv _)
 
+/-! ### the driver's `runHistory` observes the worlds of `runOps` -/
+
+theorem runHistory_fold (cx : Ctx) : ∀ (ops : List Op) (w : World) (acc : List (String × List ObjV)),
+    acc ≠ [] → (∃ res, acc.getLast? = some (res, w.view cx)) →
+    (ops.foldl (fun (st : World × List (String × List ObjV)) op =>
+        ((apply cx st.1 op).1, st.2 ++ [((apply cx st.1 op).2, (apply cx st.1 op).1.view cx)])) (w, acc)).1
+      = runOps cx w ops ∧
+    ∃ res, (ops.foldl (fun (st : World × List (String × List ObjV)) op =>
+        ((apply cx st.1 op).1, st.2 ++ [((apply cx st.1 op).2, (apply cx st.1 op).1.view cx)])) (w, acc)).2.getLast?
+      = some (res, (runOps cx w ops).view cx) := by
+  intro ops
+  induction ops with
+  | nil => intro w acc _ hlast; exact ⟨rfl, hlast⟩
+  | cons op ops ih =>
+    intro w acc _ _
+    simp only [List.foldl_cons]
+    exact ih (apply cx w op).1 (acc ++ [((apply cx w op).2, (apply cx w op).1.view cx)]) (by simp)
+      ⟨(apply cx w op).2, by simp⟩
+
+/-- the last observation `runHistory` (the function the driver executes) reports is the
+    observation of the world `runOps` reaches -/
+theorem runHistory_last (cx : Ctx) (w : World) (ops : List Op) :
+    ∃ res, (runHistory cx w ops).getLast? = some (res, (runOps cx w ops).view cx) := by
+  have h := (runHistory_fold cx ops w [("ok", w.view cx)] (by simp) ⟨"ok", rfl⟩).2
+  exact h
+
 end Biogo.Containers
